@@ -306,7 +306,7 @@ func TestProp(t *testing.T) {
 // TestCorpus replays the seed corpus (the repository's fixture files and the
 // hostile constants under /verif/corpus/C13) through the byte-level path.
 func TestCorpus(t *testing.T) {
-	for _, dir := range []string{"/repo/internal/dag/testdata", filepath.Join(os.Getenv("VERIF_ROOT"), "corpus", ID)} {
+	for _, dir := range []string{filepath.Join(repoDir(), "internal/dag/testdata"), filepath.Join(os.Getenv("VERIF_ROOT"), "corpus", ID)} {
 		ents, _ := os.ReadDir(dir)
 		for _, e := range ents {
 			if e.IsDir() {
@@ -323,7 +323,7 @@ func TestCorpus(t *testing.T) {
 }
 
 func FuzzLoad(f *testing.F) {
-	for _, dir := range []string{"/repo/internal/dag/testdata", filepath.Join(os.Getenv("VERIF_ROOT"), "corpus", ID)} {
+	for _, dir := range []string{filepath.Join(repoDir(), "internal/dag/testdata"), filepath.Join(os.Getenv("VERIF_ROOT"), "corpus", ID)} {
 		ents, _ := os.ReadDir(dir)
 		for _, e := range ents {
 			if b, err := os.ReadFile(filepath.Join(dir, e.Name())); err == nil && len(b) < 20000 {
@@ -358,4 +358,11 @@ func TestReplay(t *testing.T) {
 		t.Fatal(err)
 	}
 	check(t, c, cf.Sub)
+}
+
+func repoDir() string {
+	if d := os.Getenv("VERIF_REPO_DIR"); d != "" {
+		return d
+	}
+	return "/repo"
 }
